@@ -16,7 +16,8 @@ CONSTANTS SFmts,      \* values of --spec-format explored ("default" = flag abse
           Argvs,      \* argv syntax cases explored ("ok", "badindent", "toomany", "unknownflag")
           SExts,      \* spec-file name extensions explored ("any": the harness draws one per run)
           TExts,      \* target-file name extensions explored
-          Dbgs        \* "off", "debug" (--debug), "inspect" (--inspect)
+          Dbgs,       \* "off", "debug" (--debug), "inspect" (--inspect)
+          PrintCross  \* "full": --scalar x --indent crossed; "pairwise": --scalar only with the default indent
 
 AllTextClasses ==
   { TxtClass("qstr1",  "quote",   TRUE,  FALSE, TRUE,  TRUE,  FALSE),   \* 'a.b'
@@ -87,7 +88,10 @@ RevealL ==
 \* outcomes of the library that some (target, spec) pair can realise
 RevealR ==
   /\ Unknown("run", "r")
-  /\ \E res \in {"coll", "str", "int", "float", "other", "glomerr"}, d \in Dbgs :
+  /\ \E res \in {"coll", "str", "int", "float", "other", "glomerr", "xscalar", "xcoll"}, d \in Dbgs :
+       \* results json.dumps cannot serialise come from python / YAML / TOML targets only
+       /\ (res \in {"xscalar", "xcoll"} => (m.tgt = "loaded" /\ TFmt \in {"python", "yaml", "toml"}
+                                           /\ m.cfg.s.txt.id \in {"empty", "bare", "qstr1", "blit"} /\ d = "off"))
        \* the debug flags wrap the spec and change nothing else: crossed with everything before
        \* Run, with success / GlomError, and with one print configuration
        /\ (d # "off" => res \in {"coll", "glomerr"})
@@ -98,13 +102,16 @@ RevealR ==
        /\ (m.tgt = "emptymap" /\ m.route # "ident" /\ m.cfg.s.txt.lead # "bracket" => res = "glomerr")
        /\ (m.route # "ident" /\ ~CanSucceed(m.cfg.s.txt, m.route) => res = "glomerr")
        /\ (m.route # "ident" /\ OnlyCollections(m.cfg.s.txt) => res \in {"coll", "glomerr"})
+       /\ (m.route = "ident" /\ res = "xscalar" => FALSE)
        /\ Reveal("r", [res |-> res, dbg |-> d])
 
 RevealP ==
   /\ Unknown("print", "p")
   /\ \E ind \in Indents, sc \in {"on", "off"} :
        /\ (Slice => (ind = "default" /\ sc = "off"))
+       /\ (PrintCross = "pairwise" /\ sc = "on" => ind = "default")
        /\ (m.cfg.r.dbg # "off" => (ind = "default" /\ sc = "off"))
+       /\ (m.cfg.r.res \in {"xscalar", "xcoll"} => ind = "default")
        /\ Reveal("p", [indent |-> ind, scalar |-> sc])
 
 Next == (RevealF \/ RevealS \/ RevealT \/ RevealL \/ RevealR \/ RevealP \/ CliNext) /\ UNCHANGED model
